@@ -32,14 +32,15 @@ def load_contracts():
 
 
 def _job(args):
-    name, cfg, tier = args
+    name, cfg, tier = args[:3]
+    exclude = args[3] if len(args) > 3 else ()
     load_contracts()
     from pyvc.spec import REGISTRY, verify
 
     spec = REGISTRY[name]
     t0 = time.time()
     try:
-        r = verify(spec, cfg, tier)
+        r = verify(spec, cfg, tier, exclude=exclude)
         d = r.as_dict()
     except Exception as e:  # noqa: BLE001
         import traceback
@@ -59,16 +60,14 @@ def known_findings():
             if not line or line.startswith("#"):
                 continue
             kind, _, rest = line.partition(":")
+            head, _, text = rest.partition("::")
             fields = {}
-            toks = rest.strip().split(" ")
-            text = []
-            for t in toks:
-                if "=" in t and not text and t.split("=")[0] in ("property", "obligation", "spec", "commit"):
+            for t in head.strip().split(" "):
+                if "=" in t:
                     k, _, v = t.partition("=")
                     fields[k] = v
-                else:
-                    text.append(t)
-            out.append(dict(kind=kind.strip(), text=" ".join(text), **fields))
+            fields["properties"] = fields.get("property", "").split(",")
+            out.append(dict(kind=kind.strip(), text=text.strip(), **fields))
     return out
 
 
@@ -208,19 +207,40 @@ def main(argv=None):
                 unknown.append((name, cfg, o))
 
     # ---- known findings / violations
-    kf = [k for k in known_findings() if k.get("property") == prop and k["kind"] == "known"]
+    kf = [k for k in known_findings() if prop in k.get("properties", ()) and k["kind"] == "known"]
     violations = []
     known_hit = {}
     idx = 0
+    recheck = {}
+    unlisted = []
     for name, cfg, o in failed:
-        match = None
-        for k in kf:
-            if k.get("obligation") == o["name"] and (k.get("spec") is None or k.get("spec") == name):
-                match = k
-                break
-        if match is not None:
-            known_hit[(match.get("spec"), match["obligation"])] = match
-            continue
+        ms = [k for k in kf if k.get("obligation") == o["name"] and k.get("spec") in (None, name)]
+        if ms:
+            for m_ in ms:
+                known_hit[(m_.get("spec"), m_["obligation"], m_.get("class"))] = m_
+            key = (name, json.dumps(cfg, sort_keys=True))
+            recheck.setdefault(key, (name, cfg, set(), []))
+            recheck[key][2].update(m_["class"] for m_ in ms if m_.get("class"))
+            recheck[key][3].append(o["name"])
+            if any(not m_.get("class") for m_ in ms):
+                recheck[key][3].remove(o["name"])  # whole obligation recorded as known (structural finding)
+        else:
+            unlisted.append((name, cfg, o))
+    # a known finding suppresses only its recorded witness class: look for failures outside it
+    rjobs = [(name, cfg, a.tier, tuple(sorted(excl))) for (name, cfg, excl, obs) in recheck.values() if obs and excl]
+    if rjobs:
+        with mp.Pool(min(a.jobs, len(rjobs))) as pool:
+            rres = pool.map(_job, rjobs, chunksize=1)
+        for (name, cfg, _, excl), r in zip(rjobs, rres):
+            want = set(recheck[(name, json.dumps(cfg, sort_keys=True))][3])
+            if r["errors"] or r["undecided"]:
+                undecided.append((name, cfg, f"re-check outside known class {excl}: {(r['errors'] or r['undecided'])[0][:200]}"))
+            for o in r["obligations"]:
+                if o["name"] in want and o["result"] == "failed":
+                    unlisted.append((name, cfg, o))
+                elif o["name"] in want and o["result"] == "unknown":
+                    unknown.append((name, cfg, o))
+    for name, cfg, o in unlisted:
         idx += 1
         path, reproduced = run_replay(REG[name], cfg, o, prop, idx)
         violations.append((name, cfg, o, path, reproduced))
@@ -228,7 +248,7 @@ def main(argv=None):
     wall = time.time() - t0
     exit_code = 0
     for k in known_hit.values():
-        print(f"KNOWN-FINDING: property={prop} {k.get('spec', '')} {k['obligation']}: {k['text']}")
+        print(f"KNOWN-FINDING: property={prop} {k.get('spec', '')} {k['obligation']} [{k.get('class', 'structural')}]: {k['text']}")
     seen = set()
     for name, cfg, o, path, reproduced in violations:
         rel = os.path.relpath(path, VERIF)
